@@ -857,7 +857,26 @@ fn check_ignored_hidden(sim: &mut Sim) {
         if published.iter().any(|d| (d.sl, d.sc, d.el, d.ec) == (sl, sc, el, ec) && d.message == l.message) {
             // in a code file the words of the identifiers are dictionary words: did an edit elsewhere
             // add or remove the last occurrence of a word of this lint's neighbourhood?
-            let count = |text: &str, w: &str| text.to_lowercase().split(|c: char| !c.is_alphanumeric()).filter(|x| *x == w).count();
+            // (identifiers are split at underscores and at lower-to-upper case boundaries)
+            let count = |text: &str, w: &str| {
+                let mut n = 0;
+                let mut cur = String::new();
+                let mut prev_lower = false;
+                for c in text.chars().chain(std::iter::once(' ')) {
+                    let boundary = !c.is_alphanumeric() || (c.is_uppercase() && prev_lower);
+                    if boundary {
+                        if cur.to_lowercase() == w {
+                            n += 1;
+                        }
+                        cur.clear();
+                    }
+                    if c.is_alphanumeric() {
+                        cur.push(c);
+                    }
+                    prev_lower = c.is_lowercase();
+                }
+                n
+            };
             let then = sim.client.ignored.iter().find(|i| i.req_id == req).map(|i| i.text_at_ignore.clone()).unwrap_or_default();
             let is_code = crate::corpus::CODE_LANGS.contains(&doc.lang.as_str());
             let ident_changed = is_code && near.iter().any(|w| !w.is_empty() && count(&then, w) != count(&doc.text, w));
